@@ -10,6 +10,7 @@ stop compiling when a token changes.  Tag 0 / `true` / `.lt` is the shape at the
 import Rl4co.Generated.Params
 import Rl4co.Train.Loss
 import Rl4co.Train.RolloutBl
+import Rl4co.Train.NStep
 namespace Rl4co.Train
 open Rl4co
 
@@ -278,6 +279,26 @@ def groupsC (actorLr : K) (criticLr : Option K) : List (Bool × K) :=
     | none => if Params.trainA2cCriticKwDefault then actorLr else 0
   if Params.trainA2cGroups then [(true, actorLr), (false, c)] else [(true, c), (false, actorLr)]
 end A2C
+
+/-! ### n-step PPO (improvement models) -/
+namespace NStep
+
+/-- the rollout memory as coded (is the state cloned when it is stored?) -/
+def rolloutMemC {S : Type} (states : List S) (final : S) : List S :=
+  rolloutMem Params.trainNstepMemoryClone states final
+
+/-- the return recursion as coded -/
+def returnsRevC (gamma : K) : K → List K → List K
+  | _, [] => []
+  | R, r :: rs =>
+    let R' := match Params.trainNstepReturnTag with
+      | 1 => R + gamma * r
+      | 2 => R + r
+      | _ => R * gamma + r
+    R' :: returnsRevC gamma R' rs
+
+def returnsC (gamma V : K) (rewards : List K) : List K := (returnsRevC gamma V rewards.reverse).reverse
+end NStep
 
 /-! ### greedy-rollout baseline -/
 namespace RolloutBl
